@@ -1111,3 +1111,50 @@ def _can_answer_true(F, cb, contra):
             if not _both_orientations(contra)(f):
                 return True
     return False
+
+
+@rule('R03.10', ['C03', 'C20', 'C10'], floor=6, clause='every kind of payload the stack itself wraps in an IPv6 packet (ICMPv6, ICMPv6 behind a hop-by-hop header for MLD, TCP, UDP) is handled by the 6LoWPAN egress functions: none of them ends in unreachable!()/todo!() for such a kind')
+def r03_10(ctx):
+    """Exhaustiveness of the 6LoWPAN egress over the IPv6-capable payload kinds.  A kind is IPv6-capable when none of its
+    field types belongs to an IPv4-only protocol module (icmpv4, igmp, dhcpv4) and it carries a protocol representation
+    (raw byte payloads of raw sockets are the application's own and not claimed)."""
+    F = ctx.F
+    IPP = 'iface::packet::IpPayload'
+    a = F.adts.get(IPP)
+    ctx.need(a is not None, "iface::packet::IpPayload")
+    kinds = []
+    for v in a['variants']:
+        tys = ' '.join(f['ty'] for f in v['fields'])
+        if any(x in tys for x in ('icmpv4::', 'igmp::', 'dhcpv4::')) or 'Repr' not in tys:
+            continue
+        kinds.append(v['name'])
+    ctx.need(len(kinds) >= 3, f"IPv6-capable payload kinds (found {kinds})")
+    fns = [('iface::packet::IpPayload', 'as_sixlowpan_next_header'), ('iface::interface::InterfaceInner', 'ipv6_to_sixlowpan')]
+    for adt, fn in fns:
+        b = F.method(adt, fn)
+        if b is None:
+            cands = [x for k, x in F.bodies.items() if k.endswith('::' + fn) and '::test' not in k]
+            b = cands[0] if cands else None
+        ctx.need(b is not None, f"{fn}")
+        rets = set(b.return_blocks())
+        for v in kinds:
+            edges = []
+            for bi, bl in enumerate(b.blocks):
+                if bl['cl'] or bl['t'][0] != 'switch':
+                    continue
+                fs = [(tb, lab, f) for tb, lab, f in cond_facts(F, b, bi) if f[0] in ('is', 'isnot') and f[3] == IPP]
+                if not fs:
+                    continue
+                hit = [(bi, tb, lab) for tb, lab, f in fs if f[0] == 'is' and f[2] == v]
+                if not hit:
+                    hit = [(bi, tb, lab) for tb, lab, f in fs if f[0] == 'isnot' and v not in f[2]]
+                edges += hit
+            if not edges:
+                ctx.bad(f"{fn}|{v}|no-arm", f"{fn} does not discriminate the payload kind {v}", body=b)
+                continue
+            dead = [e for e in edges if not (rets & set(b.reachable(start=e[1])))]
+            if dead:
+                ctx.bad(f"{fn}|{v}|panics", f"{fn} ends in unreachable!()/todo!() for the payload kind {v}, which the stack sends over IPv6 (e.g. an MLD report in answer to a "
+                        "query received on an IEEE 802.15.4 interface): Interface::poll panics when that packet is dispatched", body=b, bb=dead[0][1])
+            else:
+                ctx.ok((fn, v), sample=dict(fn=fn, kind=v, handled=True))
